@@ -364,6 +364,10 @@ DOWNREF:
 
 		switch refable := value.(type) {
 		case *spec.Schema:
+			if refable == nil {
+				// the $ref designates an optional schema which is absent
+				return nil, ErrNoSchema(currentRef.String())
+			}
 			if refable.Ref.String() == "" {
 				break DOWNREF
 			}
@@ -376,12 +380,18 @@ DOWNREF:
 			currentRef = refable.Ref
 
 		case *spec.SchemaOrArray:
+			if refable == nil {
+				return nil, ErrNoSchema(currentRef.String())
+			}
 			if refable.Schema == nil || refable.Schema != nil && refable.Schema.Ref.String() == "" {
 				break DOWNREF
 			}
 			currentRef = refable.Schema.Ref
 
 		case *spec.SchemaOrBool:
+			if refable == nil {
+				return nil, ErrNoSchema(currentRef.String())
+			}
 			if refable.Schema == nil || refable.Schema != nil && refable.Schema.Ref.String() == "" {
 				break DOWNREF
 			}
